@@ -37,8 +37,16 @@ GEN_SPECS = {
                      {"<sum>": lambda src: {str(int(src[0]) + int(src[1]))}}),
     "gen_with_constraint": ('<start> ::= <n> ":" <dbl> ":" <m>\n<n> ::= r"[1-4]"\n<m> ::= r"[1-4]"\n<dbl> ::= r"[0-9]+" := str(int(<n>) * 2)\nwhere int(<m>) == int(<n>) + 1\n',
                             {"<dbl>": lambda src: {str(int(src[0]) * 2)}}),
-    "gen_token_eq": ('import random\n<start> ::= <t1> "/" <t2>\n<t1> ::= <tok>\n<t2> ::= <tok>\n<tok> ::= r"[0-9]{3}" := str(random.randint(100, 999))\nwhere str(<t1>) == str(<t2>)\n',
-                     {"<tok>": lambda src: None}),
+    "gen_hidden_args": ('def add(a, b):\n    return str(int(str(a)) + int(str(b)))\n\ndef half_lo(t):\n    return str(int(str(t)) // 2)\n\ndef half_hi(t):\n    return str(int(str(t)) - int(str(t)) // 2)\n\n'
+                        '<start> ::= "sum=" <total>\n<total> ::= <dg>+ := add(<lhs>, <rhs>)\n<lhs> ::= <dg>+ := half_lo(<total>)\n<rhs> ::= <dg>+ := half_hi(<total>)\n<dg> ::= r"[0-9]"\n'
+                        'where int(<lhs>) % 10 == 7\n',
+                        {"<total>": lambda src: {str(int(src[0]) + int(src[1]))}}),
+    "gen_token_pair": ('import random\n<start> ::= <request> ";" <response>\n<request> ::= "req=" <token>\n<response> ::= "rsp=" <token>\n'
+                       '<token> ::= <dg>{2} := random.choice(["11", "22", "33"])\n<dg> ::= r"[0-9]"\n'
+                       'where <request>.<token> == <response>.<token>\nwhere str(<request>.<token>).endswith("7")\n',
+                       {"<token>": lambda src: {"11", "22", "33"}}),
+    "gen_token_eq": ('import random\n<start> ::= <t1> "/" <t2>\n<t1> ::= <tok>\n<t2> ::= <tok>\n<tok> ::= r"[0-9]{3}" := random.choice(["111", "222", "333"])\nwhere str(<t1>) == str(<t2>)\n',
+                     {"<tok>": lambda src: {"111", "222", "333"}}),
 }
 
 
@@ -61,9 +69,62 @@ def check_generators(tree, oracles):
         text = node.to_string()
         if allowed is not None and text not in allowed:
             problems.append(f"{name} carries {text!r}, but the generator returns {sorted(allowed)} for the recorded arguments {src}")
-        if not all(c.read_only for c in node.children):
-            problems.append(f"{name}: generated children are not marked read-only")
     return problems
+
+
+def operator_level(name, text, oracles, rnd, rounds, distinct=None):
+    """C16 at operator level: (a) replacing ONE argument of a generator (each position in turn, the recorded source or a
+    node of the tree) must re-run the generator; (b) repair followed by mutation must not edit generated text"""
+    from fandango.evolution import GeneratorWithReturn
+    from fandango.evolution.evaluation import Evaluator
+    from fandango.evolution.mutation import SimpleMutation
+    from fandango.evolution.population import PopulationManager
+    grammar, constraints = _load_text(text)
+    n_eval, probs = 0, []
+    for k in range(rounds):
+        random.seed(rnd.randint(0, 10 ** 9))
+        tree = grammar.fuzz()
+        gen_nodes = [n for n in tree.flatten() if getattr(n.symbol, "is_non_terminal", False) and n.symbol.name() in oracles and n.sources]
+        for gnode in gen_nodes:
+            for pos_i, src in enumerate(gnode.sources):
+                targets = [src] + [n for n in tree.flatten() if n.symbol == src.symbol and not n.read_only]
+                for target in targets[:2]:
+                    repl = grammar.fuzz(start=target.symbol)
+                    if repl.to_string() == target.to_string():
+                        continue
+                    try:
+                        new_tree = tree.replace(grammar, target, repl)
+                    except Exception:
+                        continue
+                    n_eval += 1
+                    if distinct is not None:
+                        distinct.add((name, "replace-arg", pos_i, new_tree.to_string()))
+                    for p in check_generators(new_tree, oracles):
+                        probs.append(("generator_not_rerun_after_argument_replacement", f"after replacing argument #{pos_i} ({src.symbol.name()}): {p}"))
+        if constraints:
+            try:
+                ev = Evaluator(grammar, constraints, 1.0, 5, 1.0)
+                run = GeneratorWithReturn(ev.evaluate_individual(tree))
+                list(run)
+                _f, _failing, suggestion = run.return_value
+                repaired, fixes = PopulationManager(grammar, "<start>").fix_individual(tree, suggestion)
+            except Exception:
+                continue
+            for p in check_generators(repaired, oracles):
+                probs.append(("repair_edits_generated_text", p))
+            for j in range(8):
+                try:
+                    run = GeneratorWithReturn(SimpleMutation().mutate(repaired, grammar, ev.evaluate_individual))
+                    list(run)
+                    mutant = run.return_value
+                except Exception:
+                    continue
+                n_eval += 1
+                if distinct is not None:
+                    distinct.add((name, "repair-mutate", mutant.to_string()))
+                for p in check_generators(mutant, oracles):
+                    probs.append(("mutation_edits_generated_text", p))
+    return n_eval, probs
 
 
 def fandango_of(text, seed):
@@ -130,6 +191,12 @@ def run_pid(pid, tier, seed):
                             record(name, "generator_field_not_generator_output", p, text)
                 if len(samples) < 8 and sols:
                     samples.append({"spec": name, "population": pop, "solution": sols[0].to_string()[:40]})
+    if pid == "C16":
+        for name, (text, oracles) in gens.items():
+            n_eval, probs = operator_level(name, text, oracles, rnd, 6 if tier == "quick" else 30, distinct)
+            evaluations += n_eval
+            for kind, detail in probs:
+                record(name, kind, detail, text)
     violations, seen = [], set()
     for name, kind, detail, text in found:
         if (name, kind) in seen:
@@ -184,6 +251,11 @@ def replay(pid, name):
                 for p in check_generators(t, GEN_SPECS[name][1]):
                     print("GENERATOR", repr(t.to_string()), p)
                     bad += 1
+        if pid == "C16":
+            _n, probs = operator_level(name, text, GEN_SPECS[name][1], _r.Random(sd), 4)
+            for kind, detail in probs[:3]:
+                print("GENERATOR", kind, detail)
+            bad += len(probs)
         if pid == "C01":
             for b in (1, 5, 50):
                 t = fan.grammar.fuzz(max_nodes=b)
